@@ -27,6 +27,10 @@ package ctreeprop
 //	(2) interval rule for Query/Walk that ran concurrently with other operations.
 //	(3) the content after all operations finished is the model state after the
 //	    linearization: the final walk is the last operation of the history.
+//	(4) clauses that need no model (c10_rdatomic_test.go): no value of a type
+//	    nobody stored is ever handed out; a Query/Walk/WalkSorted reports all or
+//	    nothing of the leaves ONE overlapping delete removed (as far as no third
+//	    operation touched them meanwhile); WalkSorted reports in sorted order.
 import (
 	"fmt"
 	"sort"
